@@ -14,7 +14,10 @@ NoSnapShape == [round |-> 0, refs |-> FALSE, cnt |-> 1, sig |-> FALSE, topo |-> 
 
 Sh(typ, n, m, snap) == [typ |-> typ, n |-> n, m |-> m, snap |-> snap]
 
-TxCounts == {0, 1, 2} \cup (IF Big THEN {255} ELSE {})
+TxCounts == {0, 1, 2}
+\* the longest lists the builders emit (a full snapshot holds 255 transactions) and one less
+FullCounts == {254, 255}
+FullSnap == [round |-> 1, refs |-> TRUE, cnt |-> 2, sig |-> TRUE, topo |-> 1, ts |-> 1]
 
 Shapes ==
        { Sh(ty, 0, 0, NoSnapShape) : ty \in {"ping", "unknown", "auth", "confirm", "txreq", "response"} }
@@ -28,6 +31,11 @@ Shapes ==
   \* still shows a valid point to a parser that copies into a zeroed field)
   \cup { Sh("commitment", n, m, NoSnapShape) : n \in {0, 1, 3}, m \in {0, 1} }
   \cup { Sh("fullchallenge", n, m, s) : n \in {0, 1, 2}, m \in {0, 1}, s \in SnapShapes }
+  \* every message kind that carries a transaction list, at the list limit (quick tier: the
+  \* small transaction class only)
+  \cup { Sh(ty, n, m, NoSnapShape) : ty \in {"bundle", "fbundle", "txchallenge"}, n \in FullCounts,
+                                     m \in (IF Big THEN {0, 1} ELSE {0}) }
+  \cup { Sh("fullchallenge", n, m, FullSnap) : n \in FullCounts, m \in (IF Big THEN {0, 1} ELSE {0}) }
   \cup { Sh("relay", n, 0, NoSnapShape) : n \in {0, 33, 100} }
   \cup { Sh("consumers", n, 0, NoSnapShape) : n \in {0, 1, 2} }
 
@@ -35,13 +43,14 @@ MutsO(t, offs) ==
     LET n == Len(t)
         total == offs[n + 1]
         small == n <= 24
+        huge == n > 200           \* lists at their limit: a few representative mutations only
         F(f) == Idx(t, f)
         cuts == ((IF small THEN { total - (offs[i] + e) : i \in 1..(n + 1), e \in {0 - 1, 0, 1} }
                   ELSE { total - (offs[i] + e) : i \in {1, 2, 3, n - 1, n, n + 1} \cap (1..(n + 1)), e \in {0 - 1, 0, 1} })
-                 \cup (1..9)) \cap (1..total)
+                 \cup (1..9)) \cap (IF huge THEN {1, 2, 8} ELSE 1..total)
     IN  {NoMut}
         \cup { MTrunc(k) : k \in cuts }
-        \cup { MExt(k, 0) : k \in {1, 8, 32} }
+        \cup { MExt(k, 0) : k \in (IF huge THEN {1} ELSE {1, 8, 32}) }
         \cup { MPoint(i, cls) : i \in F("point") \cap (1..40), cls \in {10, 11, 12} }
         \cup (IF n >= 1000 THEN { MPoint(n, 10), MPoint(n, 12) } ELSE {})
         \cup { MSet(i, t[i].v + 1) : i \in F("gcnt") \cup F("ccnt") \cup F("cnt") \cup F("size") \cup (F("txlen") \cap (1..12)) }
@@ -51,7 +60,7 @@ MutsO(t, offs) ==
         \cup { MSet(i, 255) : i \in F("cnt") }
         \cup { MSet(i, GMagic + 1) : i \in F("gmagic") }
         \cup { MSet(1, v) : v \in {1, 23, 99, 201} \ {t[1].v} }
-        \cup { MFlip(i) : i \in (IF small THEN 1..n ELSE {1, 2, 3, n}) }
+        \cup { MFlip(i) : i \in (IF small THEN 1..n ELSE IF huge THEN {} ELSE {1, 2, 3, n}) }
 
 Muts(s) == MutsO(MsgTokens(s), Offsets(MsgTokens(s)))
 
